@@ -239,25 +239,17 @@ func (s *Service) Execute(ctx context.Context, name string, args []interface{}) 
 
 // Use plugin handlers.
 func (s *Service) Use(handler ...PluginHandler) *Service {
-	invokeHandlers, ioHandler := SeparatePluginHandlers(handler)
-	if len(invokeHandlers) > 0 {
-		s.invokeManager.Use(invokeHandlers...)
-	}
-	if len(ioHandler) > 0 {
-		s.ioManager.Use(ioHandler...)
-	}
+	invokeHandlers, ioHandler, invokeObjects, ioObjects := separatePluginHandlers(handler)
+	usePluginHandlers(s.invokeManager, invokeHandlers, invokeObjects)
+	usePluginHandlers(s.ioManager, ioHandler, ioObjects)
 	return s
 }
 
 // Unuse plugin handlers.
 func (s *Service) Unuse(handler ...PluginHandler) *Service {
-	invokeHandlers, ioHandler := SeparatePluginHandlers(handler)
-	if len(invokeHandlers) > 0 {
-		s.invokeManager.Unuse(invokeHandlers...)
-	}
-	if len(ioHandler) > 0 {
-		s.ioManager.Unuse(ioHandler...)
-	}
+	invokeHandlers, ioHandler, invokeObjects, ioObjects := separatePluginHandlers(handler)
+	unusePluginHandlers(s.invokeManager, invokeHandlers, invokeObjects)
+	unusePluginHandlers(s.ioManager, ioHandler, ioObjects)
 	return s
 }
 
